@@ -63,7 +63,7 @@ func (d DocSpec) Clone() DocSpec {
 var (
 	ElemNames = []string{"a", "b", "c", "a", "b", "a-1", "x:a", "d", "y:b"}
 	AttrNames = []string{"id", "k", "id", "x:k", "n", "xml:lang", "a", "b"}
-	Values    = []string{"1", "2", "21", "3", "3.5", "-1", "0", "abc", "ab", "b", "a", "", " ", " a  b ", "NaN", "1e2", "10", "aXb", "Abc", "é", "中a", "-0", ".5", "+1", " 7 "}
+	Values    = []string{"1", "2", "21", "3", "3.5", "-1", "0", "abc", "ab", "b", "a", "", " ", " a  b ", "NaN", "1e2", "10", "aXb", "Abc", "é", "中a", "-0", ".5", "+1", " 7 ", "7", "\n 1\n", "2 "}
 	NSURLs    = []string{"", "", "urn:x", "urn:y"}
 )
 
@@ -72,6 +72,11 @@ var (
 // ("ab"+"" = "a"+"b"), used for whole documents now and then so that keys
 // built by concatenation or lossy hashing collide.
 var TightValues = []string{"", "a", "b", "ab", "ba", "a", "b", "1", "12", "2"}
+
+// NumValues: several spellings of few numbers (and some non-numbers that
+// trimming or lenient parsing would turn into them), for runs about sum() and
+// number(): the collision class of anything keyed by a normalised spelling.
+var NumValues = []string{"1", " 1", "1 ", "01", "1.0", "+1", "1e0", "7", " 7 ", "\n7\n", "7.", "0", "-0", "", " ", "NaN", "x1", "2", "2 ", "0x1", "1_0", "Inf"}
 
 func GenDoc(r *Rng, maxNodes int) DocSpec {
 	if r.Chance(1, 3) {
@@ -174,11 +179,19 @@ func genDoc(r *Rng, maxNodes int) DocSpec {
 	budget--
 	d.C = append(d.C, top)
 	genChildren(r, top, &budget, 1)
-	if r.Chance(1, 8) && budget > 0 {
-		e := &NodeSpec{K: "e", N: r.Pick(ElemNames)}
-		budget--
-		d.C = append(d.C, e)
-		genChildren(r, e, &budget, 1)
+	if r.Chance(1, 6) && budget > 0 {
+		// several top-level elements (a fragment, a record stream, a JSON-like
+		// tree), half of the time all with the same name
+		same := r.Chance(1, 2)
+		for k := r.Range(1, 3); k > 0 && budget > 0; k-- {
+			e := &NodeSpec{K: "e", N: r.Pick(ElemNames)}
+			if same {
+				e.N = top.N
+			}
+			budget--
+			d.C = append(d.C, e)
+			genChildren(r, e, &budget, 1)
+		}
 	}
 	// spend what is left by widening random elements
 	for tries := 0; budget > 0 && tries < 20; tries++ {
